@@ -1,11 +1,47 @@
 """Child side of the C10 hash-seed sweep: started as `/venv/bin/python harness/c10_child.py` with
 PYTHONHASHSEED=<k> in the environment, reads {"repo", "verif", "cases"} as JSON from the file named by argv[1], cleans
 every case with a fresh Cleaner (plain str keys - the order is this interpreter's own set order)
-and prints {"hashseed", "results": [{"observed", "out", "calls"}, ...]} as JSON on stdout."""
+and prints {"hashseed", "results": [{"observed", "out", "calls"}, ...]} as JSON on stdout.
+
+With {"histories": [[step, ...], ...]} instead of "cases" (part D): this interpreter imports the cleaner package and never
+builds a Cleaner itself; every history is executed in its own fork()ed copy of this PRISTINE interpreter (so a history sees
+exactly the process state its own steps produced, nothing of another history) - every step on a fresh Cleaner - and
+"results" is the list of [output per step] in the order of the histories."""
 import json
 import logging
 import os
 import sys
+
+
+def _in_fork(fn):
+    """fn() in a forked copy of this process -> its JSON-serialisable result (an exception there is raised here)."""
+    r, w = os.pipe()
+    pid = os.fork()
+    if pid == 0:
+        code = 0
+        try:
+            os.close(r)
+            try:
+                data = json.dumps({"ok": fn()})
+            except BaseException:
+                import traceback
+                data = json.dumps({"error": traceback.format_exc()})
+            with os.fdopen(w, "w") as fh:
+                fh.write(data)
+        except BaseException:
+            code = 3
+        finally:
+            os._exit(code)
+    os.close(w)
+    with os.fdopen(r) as fh:
+        data = fh.read()
+    _, status = os.waitpid(pid, 0)
+    if status != 0 or not data:
+        raise RuntimeError("forked history process ended with status %r" % (status,))
+    doc = json.loads(data)
+    if "error" in doc:
+        raise RuntimeError("history failed in the forked process:\n%s" % doc["error"])
+    return doc["ok"]
 
 
 def main():
@@ -16,7 +52,11 @@ def main():
     sys.path.insert(0, doc["repo"])
     logging.disable(logging.CRITICAL)
     from harness import c10_lib
-    results = [c10_lib.run_plain(case) for case in doc["cases"]]
+    if "histories" in doc:
+        import insights.cleaner  # noqa: F401  (loaded once; no Cleaner object exists before a history starts)
+        results = [_in_fork(lambda h=h: c10_lib.run_history(h)) for h in doc["histories"]]
+    else:
+        results = [c10_lib.run_plain(case) for case in doc["cases"]]
     sys.stdout.write(json.dumps({"hashseed": os.environ.get("PYTHONHASHSEED"), "results": results}))
 
 
